@@ -182,6 +182,34 @@ pure func isws(c int) bool { c == 13 || c == 10 || c == 32 || c == 9 }
 // terminators that end an alternative
 pure func isend(c int) bool { c == 44 || c == 124 || c == 0 }
 
+// end of the blank run starting at k / end of the version-number run starting at k
+pure func wsEnd(s string, k int) int
+  decreases len(s) - k
+  { 0 <= k && k < len(s) && isws(s[k]) ? wsEnd(s, k+1) : k }
+pure func numchar(c int) bool { c != 0 && c != 40 && c != 41 && !isws(c) }
+pure func numEnd(s string, k int) int
+  decreases len(s) - k
+  { 0 <= k && k < len(s) && numchar(s[k]) ? numEnd(s, k+1) : k }
+
+auto lemma wsEnd_bounds(s string, k int)
+  ensures k <= wsEnd(s, k) && (0 <= k && k <= len(s) ==> wsEnd(s, k) <= len(s))
+  decreases len(s) - k
+  trigger wsEnd(s, k)
+  { if 0 <= k && k < len(s) && isws(s[k]) { wsEnd_bounds(s, k+1) } }
+
+auto lemma numEnd_bounds(s string, k int)
+  ensures k <= numEnd(s, k) && (0 <= k && k <= len(s) ==> numEnd(s, k) <= len(s))
+  decreases len(s) - k
+  trigger numEnd(s, k)
+  { if 0 <= k && k < len(s) && numchar(s[k]) { numEnd_bounds(s, k+1) } }
+
+// appending the next byte of d extends the copied span by one
+// (stated about the new string n itself, so that a hint can name it)
+lemma cat_extend(o string, d string, s0 int, i int, n string)
+  requires 0 <= s0 && s0 <= i && i < len(d) && len(n) == len(o) + (i + 1 - s0) && n[len(n) - 1] == d[i]
+  requires forall k int :: 0 <= k && k < len(n) - 1 ==> n[k] == (o ++ d[s0:i])[k]
+  ensures n == o ++ d[s0:i+1]
+
 func (*input).Peek
   requires i != nil && 0 <= i.Index
   ensures result == peekAt(i.Data, i.Index)
@@ -197,9 +225,11 @@ func eatWhitespace
   ensures old(input.Index) <= len(input.Data) ==> input.Index <= len(input.Data)
   ensures old(input.Index) > len(input.Data) ==> input.Index == old(input.Index)
   ensures forall k int :: old(input.Index) <= k && k < input.Index ==> isws(input.Data[k])
+  ensures old(input.Index) <= len(input.Data) ==> input.Index == wsEnd(input.Data, old(input.Index))
   modifies input.Index
   loop 1:
     invariant input.Index >= old(input.Index) && input.Index <= len(input.Data) + 2
+    invariant wsEnd(input.Data, input.Index) == wsEnd(input.Data, old(input.Index))
     invariant old(input.Index) <= len(input.Data) ==> input.Index <= len(input.Data)
     invariant old(input.Index) > len(input.Data) ==> input.Index == old(input.Index)
     invariant forall k int :: old(input.Index) <= k && k < input.Index ==> isws(input.Data[k])
@@ -218,9 +248,21 @@ func parsePossibilityNumber
   ensures input.Index >= old(input.Index) && input.Index <= len(input.Data)
   // success only in front of the closing parenthesis: an unterminated "(..." is an error
   ensures result == nil ==> peekAt(input.Data, input.Index) == 41
+  // the number is exactly the run of non-blank bytes after the leading blanks; only blanks may follow it
+  ensures result == nil ==> version.Number == old(version.Number) ++
+            input.Data[wsEnd(input.Data, old(input.Index)) : numEnd(input.Data, wsEnd(input.Data, old(input.Index)))]
+  ensures result == nil ==> input.Index == wsEnd(input.Data, numEnd(input.Data, wsEnd(input.Data, old(input.Index))))
   modifies input.Index, version.Number
   loop 1:
-    invariant input.Index >= old(input.Index) && input.Index <= len(input.Data)
+    invariant input.Index >= wsEnd(input.Data, old(input.Index)) && input.Index <= len(input.Data) && old(input.Index) <= len(input.Data)
+    invariant input.Index <= numEnd(input.Data, wsEnd(input.Data, old(input.Index))) ==>
+      numEnd(input.Data, input.Index) == numEnd(input.Data, wsEnd(input.Data, old(input.Index))) &&
+      version.Number == old(version.Number) ++ input.Data[wsEnd(input.Data, old(input.Index)) : input.Index]
+      by { cat_extend(old(version.Number), input.Data, wsEnd(input.Data, old(input.Index)), input.Index - 1, version.Number) }
+    invariant input.Index > numEnd(input.Data, wsEnd(input.Data, old(input.Index))) ==>
+      input.Index == wsEnd(input.Data, numEnd(input.Data, wsEnd(input.Data, old(input.Index)))) &&
+      version.Number == old(version.Number) ++ input.Data[wsEnd(input.Data, old(input.Index)) : numEnd(input.Data, wsEnd(input.Data, old(input.Index)))] &&
+      (peekAt(input.Data, input.Index) == 41 || peekAt(input.Data, input.Index) == 0)
     decreases len(input.Data) - input.Index
 
 func parsePossibilityVersion
@@ -437,7 +479,7 @@ property C18: parseArchInto, ParseArch, ParseArchitectures, (*Arch).UnmarshalCon
   parsePossibilityArch, parsePossibilityArchs, parsePossibilityStage, parsePossibilityStageSet, parsePossibilityControllers,
   parseMultiarch, parseSubstvar, parsePossibility, parseRelation, parseDependency, Parse
 
-property C04: (*input).Peek, (*input).Next, eatWhitespace, parsePossibilityOperator, parsePossibilityNumber, parsePossibilityVersion,
+property C04: lemma cat_extend, (*input).Peek, (*input).Next, eatWhitespace, parsePossibilityOperator, parsePossibilityNumber, parsePossibilityVersion,
   parsePossibilityArch, parsePossibilityArchs, parsePossibilityStage, parsePossibilityStageSet, parsePossibilityControllers,
   parseMultiarch, parseSubstvar, parsePossibility, parseRelation, parseDependency, Parse
 
